@@ -135,6 +135,15 @@ CHECKS = {
         "value introduced for one of them is unknown to its siblings and transform legitimately rejects it).",
         "DESIGN.md §4 C17",
     ),
+    "C18": (
+        "model-based PBT: generated hierarchies/samples, fitted content compared with an independent dictionary-based "
+        "merge using exact counts; validity predicates in the statement's words; malformed hierarchies must be refused",
+        "Forests of 2-3 levels, uneven fan-out, unobserved members, internal names in the data, unknown and missing "
+        "values, numeric leaves, groups placed exactly at min_freq*n; reference merge vs fitted values_orders and "
+        "transform output. Exploration over bounded sizes.",
+        "Trusted: the 25-line reference merge (pbt/props/c18_chained.py:reference_merge), Fraction arithmetic.",
+        "DESIGN.md §4 C18",
+    ),
     "C04": (
         "PBT with a reference oracle: table-first generated samples, transform(X_train) compared with the "
         "mapping recomputed from values_orders (list+content) only; metamorphic string-form probe",
